@@ -10,11 +10,14 @@ package c16
 import (
 	"context"
 	"sort"
+	"strings"
 	"time"
 
 	"verif/sim"
 	"verif/simrt"
+	_ "verif/simtest/c05" // registers C05PROBE/blinded-without-auction
 	"verif/simtest/c07"
+	_ "verif/simtest/c09" // registers C09PROBE/unobtainable-client-*
 	. "verif/simtest/env"
 	"verif/simtest/syssim"
 )
@@ -148,5 +151,27 @@ func init() {
 	sim.Register(&sim.Scenario{Property: "C16", Name: "system-odd", Gen: gen, Exec: exec, Weight: 4})
 	for _, s := range c07.OddScenarios("C16") {
 		sim.Register(s)
+	}
+	// odd-content probes built with the proposer and auction scenarios: only crashes count here
+	for _, ref := range [][2]string{{"C05PROBE", "blinded-without-auction"}, {"C09PROBE", "unobtainable-client-best"}, {"C09PROBE", "unobtainable-client-deadline"}} {
+		src := sim.Find(ref[0], ref[1])
+		if src == nil {
+			continue
+		}
+		inner := src.Exec
+		sim.Register(&sim.Scenario{Property: "C16", Name: ref[1], Gen: src.Gen, Weight: 1, Exec: func(plan any, sched *simrt.Tape) *sim.Outcome {
+			o := inner(plan, sched)
+			if o != nil && o.Violation != nil {
+				if strings.Contains(o.Violation.Kind, "panic") {
+					o.Violation.Kind = "C16/panic/" + PanicSite(o.Violation.Detail)
+				} else if !strings.HasPrefix(o.Violation.Kind, "harness-") {
+					o.Violation = nil
+				}
+			}
+			if o != nil {
+				o.Nontrivial = true
+			}
+			return o
+		}})
 	}
 }
